@@ -4,6 +4,7 @@ import re
 
 from hypothesis import strategies as st
 
+from vlib import rivals
 from vlib.core import Part, Violation, Discard, call
 
 from mitxgraders import StringGrader
@@ -226,7 +227,9 @@ def build(spec):
     elif via == 'expect-arg':
         arg = spec['expect']
     # via == 'none': accept modes without any answer (StringGrader.__call__ supplies the empty expect)
-    return StringGrader(**cfg), arg, ans_msg
+    g = StringGrader(**cfg)
+    rivals.after_build(g)          # vlib/rivals.py: another StringGrader with opposite flags and a pattern, used first
+    return g, arg, ans_msg
 
 
 def observe(g, arg, student):
